@@ -36,7 +36,7 @@ let model toks =
   let beta = ref { b_hist = hist; b_mmr = peaks } in
   let outs = ref [] in
   for _b = 1 to nb do
-    expect "B";
+    let commit = (match next () with "B" -> true | "F" -> false | _ -> failwith "expected B or F") in
     let hb_header = hash () in
     let hb_parent_sroot = hash () in
     let ng = int_of_string (next ()) in
@@ -45,8 +45,10 @@ let model toks =
     let hb_accout = List.init na (fun _ -> let s = n_of_string (next ()) in let o = hash () in (s, o)) in
     let blk = { hb_header; hb_parent_sroot; hb_guar; hb_accout } in
     (match acc_root_opt keccak_n hb_accout with None -> failwith "OUTOFFUEL" | Some _ -> ());
-    beta := rh_step blake2b_n keccak_n (acc_root_k keccak_n) hh !beta blk;
-    outs := fmt_beta !beta :: !outs
+    (* every block is computed from the committed prior VALUE; an F block (uncommitted sibling) does not advance it *)
+    let post = rh_step blake2b_n keccak_n (acc_root_k keccak_n) hh !beta blk in
+    if commit then beta := post;
+    outs := fmt_beta post :: !outs
   done;
   String.concat " / " (List.rev !outs)
 
